@@ -62,6 +62,7 @@ def run(ctx):
     ctx.rule('NODROP', 'no validator drops or swallows a checker result')
     ctx.rule('SIBLING', 'reports reach every leaf their cumulative validator reaches')
     ctx.rule('LEAFREAD', 'each leaf checker (transitively) reads the data its invariant is about')
+    ctx.rule('LEAFMUTUAL', 'the neighbour check of a shared facet requires both cells to name each other')
     _witness(ctx)
     for cfg in ctx.cfgs:
         prog = ctx.prog(cfg)
@@ -71,6 +72,7 @@ def run(ctx):
         _nodrop(ctx, cfg, prog, lv)
         _sibling(ctx, cfg, prog, lv)
         _leafread(ctx, cfg, prog)
+        _leafmutual(ctx, cfg, prog)
     return ctx.finish(EXPLANATION)
 
 
@@ -142,6 +144,52 @@ def _leafread(ctx, cfg, prog):
                    'class that needs it cannot be detected by this checker' % (what, sorted(accepted)),
                    site='%s:%d' % (b.file, b.line))
     ctx.floor('LEAFREAD instances', 10, n, cfg)
+
+
+NEIGH_MATCH = _T + 'validate_neighbor_pointers_match_facet_to_cells_map'
+
+
+def _leafmutual(ctx, cfg, prog):
+    """LEAFMUTUAL: for an interior facet shared by cells a and b the neighbour relation is valid only if a's slot names
+    b *and* b's slot names a.  In `validate_neighbor_pointers_match_facet_to_cells_map` there are (at least) two
+    equality tests between a neighbour slot (`Option<CellKey>`) and a cell key, and from each of them the rest of the
+    function is reachable only through its *equal* edge: a test whose outcome is merely combined with the other one
+    (`a_links_b != b_links_a`) lets "both slots empty" through."""
+    b = prog.bodies.get(NEIGH_MATCH)
+    if b is None:
+        ctx.ob('ANCHOR', 'missing|' + NEIGH_MATCH, cfg, False, 'LEAFMUTUAL names a function that no longer exists')
+        return
+    site = '%s:%d' % (b.file, b.line)
+    cmps = []
+    for bb, t in b.calls():
+        last = (t.callee or t.resolved or '').rsplit('::', 1)[-1]
+        if last not in ('eq', 'ne') or len(t.args) < 2:
+            continue
+        tys = [b.locals[o.place.local] for o in t.args if o.place is not None]
+        if not tys or not all('Option<core::triangulation_data_structure::CellKey>' in ty.replace(' ', '') for ty in tys):
+            continue
+        cf = flow.call_flow(b, bb)
+        equal = cf.ok_edges if last == 'eq' else cf.err_edges
+        cmps.append((bb, last, equal, t.line))
+    oks = [e['bb'] for e in gate.success_exit_blocks(b)]
+    good = 0
+    details = []
+    for (bb, last, equal, line) in cmps:
+        if not equal:
+            details.append('L%d: result not branched on' % line)
+            continue
+        reach = flow.reach_edges(b, b.succs(bb), avoid_edges=equal)
+        # without the equal edge only failure may follow
+        if any(x in reach for x in oks):
+            details.append('L%d: an Ok exit is reachable on the unequal side' % line)
+            continue
+        good += 1
+    ok = good >= 2
+    ctx.ob('LEAFMUTUAL', NEIGH_MATCH, cfg, ok,
+           'slot-vs-key equality tests: %d, of which %d let the function continue only on their equal edge%s' % (
+               len(cmps), good, '' if ok else ' (%s): the two directions of the neighbour relation are not both required - a shared '
+               'facet whose two slots are both empty (or both wrong in the same way) passes Level 2' % '; '.join(details)),
+           site=site)
 
 
 def _witness(ctx):
